@@ -7,7 +7,7 @@ Ev == TraceLog[l]
 IsEvent(e) == l <= TraceLen /\ Ev.e = e /\ l' = l + 1
 TNew == IsEvent("NewSession") /\ NewSession(Ev.u)
 TAns == IsEvent("AnsFirst") /\ AnsFirst(Ev.u, Ev.nm, Ev.lk, Ev.kind, Ev.pl)
-TRedB == IsEvent("RedBegin") /\ RedBegin(Ev.u, Ev.nm, Ev.lk, Ev.kind, Ev.pending)
+TRedB == IsEvent("RedBegin") /\ RedBegin(Ev.u, Ev.nm, Ev.lk, Ev.kind, Ev.pending, Ev.pendingx)
 TRedE == IsEvent("Redeliver") /\ RedEnd(Ev.u, Ev.nm, Ev.lk, Ev.kind, Ev.pos0, Ev.pos1, Ev.answered, Ev.pl)
 TReset == IsEvent("Reset") /\ MRReset
 TNext == TNew \/ TAns \/ TRedB \/ TRedE \/ TReset
